@@ -100,6 +100,10 @@ fn programs(max_len: u32, core: bool) -> Gen<Vec<S>> {
     })
 }
 
+pub fn programs_for_c14() -> Gen<Vec<S>> {
+    programs(2, false)
+}
+
 pub fn spaces(tier: Tier) -> Vec<Box<dyn Space>> {
     let t = tier == Tier::Thorough;
     let mut v: Vec<Box<dyn Space>> = Vec::new();
